@@ -15,7 +15,8 @@ META["rule"] = ("same run space as C01, graphs biased to shared dependencies; af
                 "step the real cache/released sets are compared with a reference retention model; "
                 "distinct = distinct (workload digest, event-sequence digest); non-trivial = >=3 "
                 "needed keys, >=2 jobs open at once and at least one result released during the run")
-META["gates"] = {"quick": {"multi_open": 100, "released_some": 500, "requested_intermediate": 100},
+META["gates"] = {"quick": {"multi_open": 100, "released_some": 500, "requested_intermediate": 100,
+                           "caller_supplied_cache": 2000},
                  "thorough": {"multi_open": 100}}
 META["real"] = c01.META["real"] + ["dask.local.release_data / finish_task bookkeeping observed "
                                    "through the callback `state` argument"]
@@ -50,10 +51,21 @@ def run_one(tape, cfg):
     spec, req_json, request, rcfg = c01.gen_workload(tape, cfg)
     vals, calls, deps = gg.evaluate(spec)
     needed = gg.needed(spec, request, deps)
-    obs = sr.run_graph(tape, spec, request, rcfg)
+    # the result store handed in by the caller (cache=<mapping>) instead of the scheduler's own dict
+    store = {} if tape.chance(1, 4, "caller_cache") else None
+    obs = sr.run_graph(tape, spec, request, rcfg, extra_kw=None if store is None else {"cache": store})
     c01.base_outcome(out, obs, spec, req_json, rcfg, needed)
     out.nontrivial = out.nontrivial and bool(obs.rec.probes.get("released_some"))
-    return retention_oracle(out, obs, request, deps, needed, rcfg["entry"])
+    retention_oracle(out, obs, request, deps, needed, rcfg["entry"])
+    if store is not None:
+        out.probe("caller_supplied_cache")
+        if out.status != "violation" and obs.exc is None:
+            requested = set(gg.flatten_request(request))
+            extra = set(store) - requested
+            if extra:
+                out.violate("leaked", f"the caller's cache mapping still holds results that were not "
+                                      f"requested: {sorted(map(repr, extra))}", entry=rcfg["entry"])
+    return out
 
 
 def retention_oracle(out, obs, request, deps, needed, entry):
